@@ -242,6 +242,31 @@ def run_edits(ctx, seeds, gens):
             prev = nme
         crng.shuffle(decl)
         shapes["cycle-%d-%d-%d" % (k, t, ci)] = "\n".join(decl) + "\nfunction main() -> void { }\n"
+    # compile-time integer expressions (array sizes, @shots-like constants) over extreme operands:
+    # the analyser folds them itself, on host ints
+    xrng = ctx.rng("constexpr")
+    ext = ["0", "1", "(-1)", "2", "2147483647", "(-2147483647 - 1)", "(-2147483647)", "65536", "46341", "3"]
+
+    def cexpr(d):
+        if d <= 0 or xrng.random() < 0.3:
+            return xrng.choice(ext + ["lo", "hi", "m1", "z"])
+        f = xrng.randrange(8)
+        if f == 0:
+            return "-" + cexpr(d - 1) if xrng.random() < 0.5 else "(-(" + cexpr(d - 1) + "))"
+        if f == 1:
+            return "(int)(" + cexpr(d - 1) + ")"
+        return "(" + cexpr(d - 1) + " " + xrng.choice("+-*/%%//") + " " + cexpr(d - 1) + ")"
+    for ci in range(ctx.n(300, 6000)):
+        e = cexpr(xrng.randint(1, 3))
+        pos = xrng.randrange(3)
+        pre = ("final int lo = -2147483647 - 1; final int hi = 2147483647; final int m1 = -1; final int z = 0; ")
+        if pos == 0:
+            body = pre + "int[%s] a;" % e
+        elif pos == 1:
+            body = pre + "final int n = %s; int[n] a;" % e
+        else:
+            body = pre + "final int n = %s; final int k = n %s m1; float[k] f;" % (e, xrng.choice("/%*"))
+        shapes["constexpr-%d" % ci] = "function main() -> void { %s }\n" % body
     for k, v in shapes.items():
         cases.append(("shape:" + k, v))
     res = front.run_batch("analyse", [c[1] for c in cases], per_proc=600 if ctx.quick() else 3000,
@@ -251,6 +276,9 @@ def run_edits(ctx, seeds, gens):
         ctx.note_case(src, sample=dict(edit=name, source_head=src[:100]))
         kind = name.split(":")[1].split("@")[0]
         ctx.count("edit_" + re.sub(r"\d+$", "", kind))
+        if front.skipped(r):
+            ctx.count("not_judged_after_repeated_hangs")
+            continue
         if r["crash"] is not None:
             c = r["crash"]
             if c[0] == "timeout":
